@@ -58,7 +58,8 @@ CLI_FIXED = ["( 1 2 INTEGER.+ )", "( )", "( ( ( ) ) )", "( 5 INDEX.DEFINE EXEC.L
              "( 3 INDEX.DEFINE CODE.QUOTE ( 2 INTEGER.* ) 1 CODE.LOOP )", "( 1 2 INTEGER.SWAP INTEGER.DUP INTEGER.ROT )",
              "( 5 4 3 2 1 2 INTEGER.YANK 1 INTEGER.SHOVE )", "( 1 2 EXEC.K 3 4 )", "( 1 EXEC.S 2 3 4 )", "( CODE.QUOTE ( 1 2 ) CODE.DO* )",
              "( INTEGER.STACKDEPTH CODE.STACKDEPTH EXEC.STACKDEPTH )", "( 7 CODE.FROMINTEGER CODE.DO )", "( A B NAME.= INTEGER.FROMBOOLEAN )",
-             "1 2 3", "", "( 1 ( 2 ( 3 ( 4 INTEGER.+ ) INTEGER.+ ) INTEGER.+ ) )"]
+             "1 2 3", "", "( 1 ( 2 ( 3 ( 4 INTEGER.+ ) INTEGER.+ ) INTEGER.+ ) )",
+             "( 1 a(2) INTEGER.+ )", "( f(x) (y 3 )", "( a) 1 (b 2 )", "( x[3] 4 INT[5,6] )", "( POINT.X 5 INTEGER.DEFINE POINT.X )", "( in_f 1_000 _7 )"]
 CLI_NAMES = ["INTEGER.+", "INTEGER.-", "INTEGER.*", "INTEGER.DUP", "INTEGER.SWAP", "INTEGER.POP", "INTEGER.<", "INTEGER.=", "INTEGER.MAX",
              "INTEGER.MIN", "INTEGER.ABS", "EXEC.IF", "EXEC.DUP", "EXEC.K", "EXEC.POP", "EXEC.SWAP", "CODE.QUOTE", "CODE.DO", "CODE.DUP",
              "CODE.CAR", "CODE.CDR", "CODE.LENGTH", "CODE.SIZE", "BOOLEAN.NOT", "BOOLEAN.AND", "INTEGER.FROMBOOLEAN", "INTEGER.STACKDEPTH",
@@ -197,7 +198,7 @@ def streams(seed, tier):
     out.append(Stream("single-steps-both-profiles", "run", "run.check", both,
                       "one step of each of the %d deterministic instructions on %d random whole states, each state run in the debug AND in the release build" % (len(sweep), per)))
     # (2) node ids under real concurrency
-    idc = [[16, 10000, 0], [16, 100000, 0], [16, 10000, 1], [1, 1000, 0], [2, 100000, 1], [8, 20000, 1], [1, 300, 2], [8, 3000, 2], [16, 1000, 2]]
+    idc = [[16, 10000, 0], [16, 100000, 0], [16, 10000, 1], [1, 1000, 0], [2, 100000, 1], [8, 20000, 1], [1, 300, 2], [8, 3000, 2], [16, 1000, 2], [1, 200, 3], [8, 2000, 3]]
     if tier != "quick":
         idc += [[16, 1000000, 0], [64, 10000, 0], [64, 10000, 1], [16, 100000, 1]]
     cases = [sx_str([prof] + c) for c in idc for prof in (0, 1)]
